@@ -43,9 +43,10 @@ ASSUMPTIONS = [
     "explored (stated in DESIGN.md section 7)",
     "the order of a segment's two ideal endpoints is not geometric (follows the "
     "sign of the representatives); compared as unordered pairs",
-    "a hyperplane normal / chart normal n is homogeneous input (n and lambda n are the "
-    "same hyperplane): hyperplane_coordinate_transform and find_definite_isometry are "
-    "judged as projective maps / frames up to one scalar",
+    "a chart normal n is homogeneous input (n and lambda n are the same hyperplane), but "
+    "hyperplane_coordinate_transform / find_definite_isometry return one of many valid "
+    "frame completions: only what the hyperplane determines is judged under rescaling "
+    "(it goes to x0 = 0 by an orthogonal map), not the completion itself",
     "a tangent vector is rescaled jointly with its basepoint (the pair is one unit)",
     "ConvexPolygon documents its vertex coordinates as preferred lifts: not rescaled",
 ]
@@ -1478,33 +1479,24 @@ def _object_projective(run, rng, j, mon, judge, begin):
     lam, pattern = object_factors(rng, (), 1, j)
     lam = float(lam[0, 0])
     begin({"n": n, "normal": nv, "factor": lam}, pattern, n)
-    # chart normal: n and lam * n describe the same hyperplane / affine chart, so
-    # the chart transformation is judged as a projective map (seeded change C12-r4-3)
-    T0 = projective.hyperplane_coordinate_transform(nv.copy())
+    # chart normal: n and lam * n describe the same hyperplane.  The chart
+    # transformation is documented only as "an orthogonal change sending the
+    # hyperplane to infinity" -- the completion of the frame is not unique, and a
+    # different (equally valid) completion for n and for -n is not a change of any
+    # geometric output.  (An earlier version of this check compared f(n) and
+    # f(lam n) as projective maps and find_definite_isometry frames up to a scalar;
+    # benign change E-3 -- QR signs taken column by column -- showed that this
+    # demanded more than the property states: false alarm, removed.  What IS
+    # determined by the hyperplane is judged: it goes to x0 = 0, orthogonally.)
     T1 = projective.hyperplane_coordinate_transform(lam * nv)
-    M0 = np.asarray(T0.proj_data, dtype=float)
     M1 = np.asarray(T1.proj_data, dtype=float)
-    judge("hyperplane_coordinate_transform(projective map)", proj_equal_matrix(M1, M0), 1e-9)
     pts = rng.normal(size=(n + 2, n))
-    # points whose first chart coordinate stays away from 0 after the transformation
-    pts = pts + np.sign(pts @ nv)[:, None] * nv / np.linalg.norm(nv)
-    a0 = np.asarray((T0 @ projective.Point(pts.copy())).affine_coords(chart_index=0), dtype=float)
-    a1 = np.asarray((T1 @ projective.Point(pts.copy())).affine_coords(chart_index=0), dtype=float)
-    judge("hyperplane_coordinate_transform(affine coordinates of images)", rel_gap(a0, a1), 1e-8)
     inpl = pts - np.outer(pts @ nv, nv) / (nv @ nv)
     im = np.asarray((T1 @ projective.Point(inpl)).proj_data, dtype=float)
     judge("hyperplane_coordinate_transform(hyperplane to x0 = 0)",
           float(np.max(np.abs(im[:, 0]) / np.linalg.norm(im, axis=-1))), 1e-9)
-    for tag, vec in (("row", nv), ("column", nv.reshape(n, 1)), ("1xn", nv.reshape(1, n))):
-        f0 = np.asarray(utils.find_definite_isometry(np.array(vec)), dtype=float)
-        f1 = np.asarray(utils.find_definite_isometry(lam * np.array(vec)), dtype=float)
-        judge("find_definite_isometry(frame up to a scalar):" + tag, proj_equal_matrix(f1, f0), 1e-9)
-    k = int(rng.integers(2, n + 1))
-    F = rng.normal(size=(k, n))
-    lf, fpat = object_factors(rng, (), k, j)
-    f0 = np.asarray(utils.find_definite_isometry(F.copy()), dtype=float)
-    f1 = np.asarray(utils.find_definite_isometry(F * lf), dtype=float)
-    judge("find_definite_isometry(frame up to a scalar):flag", proj_equal_matrix(f1, f0), 1e-8)
+    judge("hyperplane_coordinate_transform(orthogonal)",
+          float(np.max(np.abs(M1 @ M1.T / (np.linalg.norm(M1, 2) ** 2) - np.eye(n)))), 1e-9)
     # points, pairs, polygons in affine charts
     i = int(rng.integers(0, n))
     m = int(rng.integers(3, 7))
